@@ -91,6 +91,12 @@ Theorem C16_developers_inhabited : forall lower exact order cs dict rev, order_o
 Proof. exact gen_developers_inhabited. Qed.
 Print Assumptions C16_developers_inhabited.
 
+(* an author whose e-mail and name (signature) are not in the dictionary is AuthorMissing *)
+Theorem C16_author_missing : forall lower exact dict c,
+  lookup_author lower exact dict c = None -> consume lower exact dict c = 262142.
+Proof. exact consume_missing. Qed.
+Print Assumptions C16_author_missing.
+
 (* boundary: Go indexes commits[len(commits)-1] and panics on an empty list *)
 Theorem C16_empty_list_panics : forall lower exact order, generate_people_dict lower exact order [] = None.
 Proof. exact gen_empty. Qed.
@@ -129,7 +135,7 @@ Theorem C16_merge_total : forall sel, sel_ok sel -> forall rd1 rd2, merge_domb r
   (forall s, In s (rd1 ++ rd2) ->
      exists mi, sget idx s = Some mi /\ 0 <= mi_final mi < Z.of_nat (length merged)) /\
   (forall s mi, sget idx s = Some mi -> In s (rd1 ++ rd2)).
-Proof. intros sel Hs rd1 rd2 D idx merged H. split; [exact (merge_total sel Hs rd1 rd2 D idx merged H)|exact (merge_keys sel Hs rd1 rd2 D idx merged H)]. Qed.
+Proof. exact merge_total_keys. Qed.
 Print Assumptions C16_merge_total.
 
 (* two identities share a merged index iff they are connected *)
@@ -202,6 +208,16 @@ Theorem C16_oracle_union_sound : forall rd1 rd2 idx merged, munion_okb rd1 rd2 i
   exists s, In s (rd1 ++ rd2) /\ final_of idx s = Z.of_nat w /\ In p (split s).
 Proof. exact munion_okb_sound. Qed.
 Print Assumptions C16_oracle_union_sound.
+
+Theorem C16_oracle_description_sound : forall lower cs dict rev, description_okb lower false cs dict rev = true ->
+  (forall k d, sget dict k = Some d -> key_used lower false cs k = true /\ (d < length rev)%nat) /\
+  forall d, (d < length rev)%nat -> exists ns es,
+    nth d rev [] = join ns ++ bar :: join es /\
+    StronglySorted (leR str_ltb) ns /\ StronglySorted (leR str_ltb) es /\
+    (forall k, In k ns <-> sget dict k = Some d /\ fst (first_role lower cs k) = true) /\
+    (forall k, In k es <-> sget dict k = Some d /\ snd (first_role lower cs k) = true).
+Proof. exact description_okb_sound. Qed.
+Print Assumptions C16_oracle_description_sound.
 
 (* ---------- non-vacuity ---------- *)
 (* "Bob <A@x>", "bob <b@y>", "Al <a@X>", "carl <b@y>": two developers, the first with two names *)
